@@ -56,8 +56,8 @@ struct Handles : Profile {
         Rng r  = rng.sub(2);
         int nops = (int)r.range(30, thorough ? 160 : 120);
         static const std::vector<int> w     = {/*hopen*/ 8, /*acquire*/ 30, /*release*/ 22, /*check*/ 8, /*stale*/ 14, /*wrongkind*/ 8, /*never*/ 4,
-                                               /*closebusy*/ 4, /*foreign*/ 3, /*teardown*/ 2, /*use*/ 10, /*badopen*/ 3, /*manyfiles*/ 0, /*hashchain*/ 2};
-        static const char            *names[] = {"hopen", "acquire", "release", "check", "stale", "wrongkind", "never", "closebusy", "foreign", "teardown", "use", "badopen", "manyfiles", "hashchain"};
+                                               /*closebusy*/ 4, /*foreign*/ 3, /*teardown*/ 2, /*use*/ 10, /*badopen*/ 3, /*manyfiles*/ 0, /*hashchain*/ 2, /*vgtwice*/ 2};
+        static const char            *names[] = {"hopen", "acquire", "release", "check", "stale", "wrongkind", "never", "closebusy", "foreign", "teardown", "use", "badopen", "manyfiles", "hashchain", "vgtwice"};
         p.ops.push_back(mkop(0, "hopen", {0, 0}));
         if (r.chance(0.03)) // rarely, and first: several hundred SD files open at once (ids carry the number of the file's slot)
             p.ops.push_back(mkop(0, "manyfiles", {257 + (int64_t)r.below(8)}));
@@ -85,6 +85,9 @@ struct Handles : Profile {
                     break;
                 case 11:
                     p.ops.push_back(mkop(0, names[k], {(int64_t)r.below(6), (int64_t)r.below(2)}));
+                    break;
+                case 14: // which file id, which vgroup
+                    p.ops.push_back(mkop(0, names[k], {(int64_t)r.below(100), (int64_t)r.below(2)}));
                     break;
                 case 13: // kind of id (file / access), file, order in which the three are released
                     p.ops.push_back(mkop(0, names[k], {(int64_t)r.below(3), (int64_t)r.below(2), (int64_t)r.below(6)})); // kind 2: two files
@@ -974,6 +977,50 @@ struct Handles : Profile {
                     if (Hclose(base) == FAIL)
                         ctx.fail("release-failed", "release-failed:hashchain-base", strf("Hclose failed: %s", herr().c_str()));
                     ctx.probe("ids-sharing-a-chain");
+                }
+            }
+            else if (k == "vgtwice") {
+                // One vgroup attached twice at the same time through one file id, for writing and then for reading: the second
+                // attachment must not take anything from the first (its access mode, its unsaved changes, its count).
+                auto fids = live_of(s, H_FID);
+                int  fi   = fids.empty() ? -1 : fids[(size_t)modn(o.arg(0), (int)fids.size())];
+                // (each file id has its own tables of the V interface: with two ids open on the path, what one stores is not
+                // what the other has in memory, so the scenario runs with one id on the path)
+                if (fi < 0 || s.h[(size_t)fi].mode != 2 || !s.populated[s.h[(size_t)fi].file] || live_of(s, H_FID, s.h[(size_t)fi].file).size() != 1)
+                    done = false;
+                else {
+                    Hd         &fd  = s.h[(size_t)fi];
+                    std::string nm  = strf("hvg%d_%d", fd.file, modn(o.arg(1), 2));
+                    int32       ref = Vfind(fd.id, nm.c_str());
+                    int32       v1  = ref <= 0 ? FAIL : Vattach(fd.id, ref, "w");
+                    if (v1 == FAIL)
+                        ctx.fail("acquire-failed", "acquire-failed:attach", strf("attaching %s for writing failed", nm.c_str()));
+                    int32 n0 = Vntagrefs(v1), len0 = Hlength(fd.id, DFTAG_VG, (uint16)ref);
+                    if (Vaddtagref(v1, 8901, 1 + n0) == FAIL)
+                        ctx.fail("acquire-failed", "acquire-failed:vgtwice", "Vaddtagref through a write attachment failed");
+                    int32 v2 = Vattach(fd.id, ref, "r");
+                    if (v2 == FAIL)
+                        ctx.fail("acquire-failed", "acquire-failed:attach", strf("attaching %s a second time failed", nm.c_str()));
+                    ctx.st.checks++;
+                    if (Vntagrefs(v2) != n0 + 1 || Vntagrefs(v1) != n0 + 1)
+                        ctx.fail("alias", "alias:vgroup-attached-twice", strf("%s attached twice: the attachments count %d and %d members, there are %d", nm.c_str(), (int)Vntagrefs(v1), (int)Vntagrefs(v2), (int)n0 + 1));
+                    if (Vaddtagref(v1, 8901, 2 + n0) == FAIL)
+                        ctx.fail("live-rejected", "live-rejected:write-attachment-after-read-attach",
+                                 strf("%s: after the same vgroup was attached for reading, the write attachment obtained before refuses Vaddtagref", nm.c_str()));
+                    if (Vdetach(v2) == FAIL || Vdetach(v1) == FAIL)
+                        ctx.fail("release-failed", "release-failed:vgtwice", "Vdetach failed");
+                    int32 v3 = Vattach(fd.id, ref, "r");
+                    if (v3 == FAIL || Vntagrefs(v3) != n0 + 2)
+                        ctx.fail("retained-state", "retained-state:vgroup-attached-twice",
+                                 strf("%s has %d members after two were added through a write attachment that overlapped a read attachment (%d before)", nm.c_str(), v3 == FAIL ? -1 : (int)Vntagrefs(v3), (int)n0));
+                    if (v3 != FAIL)
+                        Vdetach(v3);
+                    // and the stored record has grown by the two members (tag and reference, two bytes each)
+                    int32 len1 = Hlength(fd.id, DFTAG_VG, (uint16)ref);
+                    if (len0 == FAIL || len1 != len0 + 8)
+                        ctx.fail("retained-state", "retained-state:vgroup-record-not-updated",
+                                 strf("%s: the stored vgroup record has %d bytes after two members were added (%d before): the changes made through the write attachment were not stored", nm.c_str(), (int)len1, (int)len0));
+                    ctx.probe("vgroup-attached-twice");
                 }
             }
             else if (k == "manyfiles") {
